@@ -37,6 +37,7 @@ pub const EDIT_CLASSES: &[&str] = &[
     "enum_rename_all",
     "add_validator",
     "change_validator",
+    "validator_message",
     "add_event",
     "remove_event",
     "event_payload_type",
@@ -259,7 +260,7 @@ pub fn gen_edit(r: &mut Rng, class: &str, m: &Model) -> Option<(Model, String)> 
             }
         }
         "add_field" | "remove_field" | "rename_field" | "field_type" | "field_option_toggle" | "field_pub_toggle"
-        | "field_serde_rename" | "field_serde_rename_identity" | "struct_rename_all" | "field_serde_skip" | "add_validator" | "change_validator" => {
+        | "field_serde_rename" | "field_serde_rename_identity" | "struct_rename_all" | "field_serde_skip" | "add_validator" | "change_validator" | "validator_message" => {
             let mut names = serde_struct_names(m, true);
             if class == "field_serde_rename_identity" {
                 // only where a rename_all would otherwise transform the (multi-word) name
@@ -336,6 +337,28 @@ pub fn gen_edit(r: &mut Rng, class: &str, m: &Model) -> Option<(Model, String)> 
                     s.fields[k].skip = true;
                     desc = format!("#[serde(skip)] on {}.{}", n, s.fields[k].name);
                 }
+                "validator_message" => {
+                    // only the text of the error message changes (or a message appears / goes):
+                    // the limits stay what they were
+                    let cands: Vec<usize> = live
+                        .iter()
+                        .copied()
+                        .filter(|k| s.fields[*k].validate.as_deref().map(|v| v.starts_with("length(") || v.starts_with("range(")).unwrap_or(false))
+                        .collect();
+                    if cands.is_empty() {
+                        return None;
+                    }
+                    let k = *r.pick(&cands);
+                    let old = s.fields[k].validate.clone().unwrap_or_default();
+                    let word = *r.pick(WORDS);
+                    let new = match old.find(", message = \"") {
+                        Some(p) if r.chance(1, 3) => format!("{})", &old[..p]),
+                        Some(p) => format!("{}, message = \"{} is not acceptable #{}\")", &old[..p], word, r.range(1, 999)),
+                        None => format!("{}, message = \"{} must fit\")", old.trim_end_matches(')'), word),
+                    };
+                    desc = format!("validator message on {}.{}: {:?} -> {:?}", n, s.fields[k].name, old, new);
+                    s.fields[k].validate = Some(new);
+                }
                 "add_validator" => {
                     let cands: Vec<usize> = live.iter().copied().filter(|k| s.fields[*k].validate.is_none() && gen_validate(&mut Rng::new(1), &s.fields[*k].ty).is_some()).collect();
                     if cands.is_empty() {
@@ -376,7 +399,7 @@ pub fn gen_edit(r: &mut Rng, class: &str, m: &Model) -> Option<(Model, String)> 
             let k = r.below(e.variants.len() as u64) as usize;
             match class {
                 "add_variant" => {
-                    let v = Variant { name: nm.fresh(r, "variant"), rename: None };
+                    let v = Variant { name: nm.fresh(r, "variant"), rename: None, payload: None };
                     desc = format!("add variant {}::{}", n, v.name);
                     e.variants.push(v);
                 }
